@@ -434,7 +434,7 @@ Qed.
 
 (* strconv.Unquote inverts strconv.Quote on every byte string: any text, quotes, backslashes, control
    characters, newlines, invalid UTF-8, non-printable runes *)
-Theorem C11_po_unquote_quote : forall is_print s, bytes s -> go_unquote (go_quote is_print s) = Ok s.
+Theorem C11_po_unquote_quote : forall is_print s, bytes s -> go_unquote (po_go_quote is_print s) = Ok s.
 Proof. exact unquote_quote. Qed.
 Print Assumptions C11_po_unquote_quote.
 
